@@ -54,10 +54,50 @@ def _m1():
     return cfg
 
 
+def _m2():
+    """Two partitions and traits: records under servers of a non-default
+    partition, re-assignment of the pattern, label/trait changes."""
+    cfg = mastercfg.m2()
+    cfg['monitors'] = []
+    cfg['events'] = mastercfg.ev(
+        ('app+', 'pl'), ('app+', 't1'), ('app+', 'hi'), ('app-', 0),
+        ('alloc', 1), ('alloc', 2), ('alloc', 0),
+        ('srv', 's0', 1), ('srv', 's0', 0), ('srv', 's1', 1),
+        ('pres-', 's2'), ('pres+', 's2', 0),
+        ('noop',), ('restart',),
+    )
+    return cfg
+
+
+def _m8():
+    """Leases next to the reboot date: s0 has been up for 19.5 days, so a
+    one-day lease granted now still fits, but not half a day later."""
+    from mc.vclock import BASE
+    day = 24 * 3600
+    cfg = mastercfg.m1()
+    cfg['monitors'] = []
+    cfg['servers'] = {
+        's0': {'parent': 'rack:0', 'variants': [
+            {'cap': ['10M', '10%', '10M'],
+             'up_since': int(BASE - 19 * day - 12 * 3600)}]},
+        's1': {'parent': 'rack:0', 'variants': [
+            {'cap': ['4M', '4%', '4M'], 'up_since': int(BASE)}]},
+    }
+    cfg['max_apps'] = 3
+    cfg['allow_nocycle'] = False
+    cfg['events'] = mastercfg.ev(
+        ('app+', 'ls'), ('app+', 'sm'), ('app-', 0),
+        ('pres-', 's0'), ('pres+', 's0', 0),
+        ('tick', day // 4), ('tick', day // 2), ('tick', day),
+        ('noop',), ('restart',),
+    )
+    return cfg
+
+
 def configs(ctx):
     if ctx.quick:
-        return [('M1', _m1(), 3, 1)]
-    return [('M1', _m1(), 5, 1)]
+        return [('M1', _m1(), 3, 1), ('M2', _m2(), 3, 0), ('M8', _m8(), 4, 0)]
+    return [('M1', _m1(), 5, 1), ('M2', _m2(), 5, 1), ('M8', _m8(), 7, 0)]
 
 
 RULE = ('BFS over World-B histories (a cycle after each event); at every '
